@@ -121,6 +121,27 @@ func vsReplayEdgeCover(run *core.Run, prop string, crash bool) {
 			_ = replays
 			_ = steps
 		}
+		// tall concretisation (views far behind the frontier: second-level cache) on a seeded sample
+		tallEvery := int64(12)
+		if run.Thorough() {
+			tallEvery = 2
+		}
+		if (n+run.Seed)%tallEvery == 0 {
+			skip := false
+			for _, s := range b.Steps {
+				if s.A == "Restart" {
+					skip = true
+				}
+			}
+			if !skip {
+				out, err := vsReplayT("ldb", 365, conc, b, scratch)
+				if err != nil {
+					core.Fatal("tall replay infrastructure: %v", err)
+				}
+				run.Count("replayed_behaviours_ldb_tall(365 filler commits)", 1)
+				vsReportMismatches(run, prop, "ldb-tall", conc, b, out.Mismatches)
+			}
+		}
 		if n%20000 == 1 {
 			run.AddSample(map[string]interface{}{"behaviour": b.Steps, "predicted_final_state": b.Obs})
 		}
